@@ -349,6 +349,7 @@ REWRITES_DOC = {
     'R17': '`for PAT in E {` -> `for verif_xK in E { let PAT = verif_xK;` (the loop pattern is bound exactly like let)',
     'R18': '(fallback, only when a body contains closures the proof has no contract for) `E.map(|PAT| X)` -> `match E { Some(PAT) => Some(X), None => None }`: std\'s definition of Option::map with the closure literal beta-reduced; on a non-Option receiver the text does not type-check and the unit is undecided as before',
     'R19': 'an associated type of the implemented trait written out as the type the impl assigns to it (`Self::ValueIter` -> `ValueIter<\'a>`), where a trait impl is verified as inherent functions',
+    'R20': 'total variant of a function that panics as documented: `E.unwrap()` -> `E.verif_unwrap_atomic(Ghost(CHK))`, `assert!(C, ..)` -> `verif_assert_atomic(C, Ghost(CHK))`: the models return only when no panic occurs and REQUIRE that the state named by CHK is unchanged when one does (C16: a refused call leaves the builder as it was)',
     'R15': 'fully qualified `std::cmp::f` / `core::cmp::f` -> `cmp::f` (the path through the crate\'s own `use std::cmp;`; both name the function the model module cmp declares)',
     'R8': 'struct fields widened to pub inside the unit',
     'R1': 'doc comments / #[inline] / derives dropped',
@@ -671,6 +672,35 @@ def weave_fn(src, container, name, nth, opts, subs, mode, sig_only=False):
         if k:
             rewrites['R12'] = k
     for kind, arg, lines in subs:
+        if kind == 'panic_atomic':
+            # R20 (the "total" variant of a function that panics as documented): every panic site of the body gets the obligation that the
+            # state named by the directive is unchanged when the panic happens - `E.unwrap()` -> `E.verif_unwrap_atomic(Ghost(CHK))`,
+            # `assert!(C, ..)` -> `verif_assert_atomic(C, Ghost(CHK))` (specs/panic_model.vrs: they return only when no panic occurs)
+            chk = arg.strip()
+            text, k1 = re.subn(r'\.unwrap\(\)', '.verif_unwrap_atomic(Ghost(%s))' % chk, text)
+            out_, pos_, k2 = [], 0, 0
+            for m_ in re.finditer(r'(?<![A-Za-z0-9_])assert!\(', text):
+                if m_.start() < pos_:
+                    continue
+                d_, j_, first_end = 0, m_.end(), None
+                while j_ < len(text):
+                    ch = text[j_]
+                    if ch in '([{':
+                        d_ += 1
+                    elif ch in ')]}':
+                        if d_ == 0:
+                            break
+                        d_ -= 1
+                    elif ch == ',' and d_ == 0 and first_end is None:
+                        first_end = j_
+                    j_ += 1
+                cond = text[m_.end():(first_end if first_end is not None else j_)]
+                out_.append(text[pos_:m_.start()]); out_.append('verif_assert_atomic(%s, Ghost(%s))' % (cond.strip(), chk)); pos_ = j_ + 1; k2 += 1
+            out_.append(text[pos_:])
+            text = ''.join(out_)
+            if k1 + k2:
+                rewrites['R20'] = k1 + k2
+    for kind, arg, lines in subs:
         if kind == 'assoc_type':
             # R19: `//@assoc_type Self::ValueIter ValueIter<'a>` - an associated type of the trait written out as the type the impl block
             # assigns to it (`type ValueIter = ValueIter<'a>;`): needed where a trait impl is verified as inherent functions (R4b)
@@ -710,9 +740,9 @@ def weave_fn(src, container, name, nth, opts, subs, mode, sig_only=False):
             # type (monomorphization): `//@call_rename bits::read_int bits_mapped::read_int`
             a_, b_ = arg.split()
             text, k = re.subn(r'(?<![\w:])' + re.escape(a_) + r'\s*\(', b_ + '(', text)
-            if not k:
-                raise Undecided('anchor lost: no call of %s in %s::%s' % (a_, container, name))
-            rewrites['R7'] = rewrites.get('R7', 0) + k
+            # (a rewrite, not a proof anchor: where the call does not occur there is nothing to redirect)
+            if k:
+                rewrites['R7'] = rewrites.get('R7', 0) + k
     for kind, arg, lines in subs:
         if kind == 'deref_operand':
             text, k = rw_deref_operand(text, arg.strip())
@@ -816,7 +846,7 @@ def weave_fn(src, container, name, nth, opts, subs, mode, sig_only=False):
     # collect sub-directives
     for kind, arg, lines in subs:
         body_text = '\n'.join(lines)
-        if kind in ('inst', 'rename_generic', 'desugar_by_ref', 'desugar_for', 'desugar_for_into', 'desugar_closure_patterns', 'model_adapters', 'deref_operand', 'call_rename', 'collect_as', 'hoist_for_pattern', 'assoc_type'):
+        if kind in ('inst', 'rename_generic', 'desugar_by_ref', 'desugar_for', 'desugar_for_into', 'desugar_closure_patterns', 'model_adapters', 'deref_operand', 'call_rename', 'collect_as', 'hoist_for_pattern', 'assoc_type', 'panic_atomic'):
             continue
         if kind == 'attr':
             if not sig_only:
